@@ -346,7 +346,7 @@ CLOSED_THEOREMS = {'hitzer_tail_ok', 'hitzer_num1_eq', 'hitzer_num2_eq', 'hitzer
 
 
 METH_THEOREMS = {'meth_conjugate_eq', 'meth_even_eq', 'meth_odd_eq', 'meth_mag2_eq', 'meth_commutator_eq', 'meth_anticommutator_eq',
-                 'meth_pick_inv_eq', 'meth_project_eq', 'meth_dual_eq', 'meth_pow_eq'}
+                 'meth_pick_inv_eq', 'meth_project_eq', 'meth_dual_eq', 'meth_pow_eq', 'meth_operators_eq'}
 
 
 def _tie_a_one(script):
@@ -418,7 +418,7 @@ TRANSLATORS = [   # (script, theorems it generates (None = everything else), mod
     ('mv2lean.py', MV_THEOREMS, ['Proofs.Conf2', 'Proofs.CgaObj', 'Proofs.Classify']),
     ('loops2lean.py', LOOP_THEOREMS, ['Model']),
     ('closed2lean.py', CLOSED_THEOREMS, ['Proofs.Hitzer', 'Proofs.Hitzer4', 'Proofs.Hitzer5']),
-    ('methods2lean.py', METH_THEOREMS, ['Proofs.Invol', 'Proofs.Graded', 'Proofs.Blade', 'Proofs.InvProps']),
+    ('methods2lean.py', METH_THEOREMS, ['Proofs.Invol', 'Proofs.Graded', 'Proofs.Blade', 'Proofs.InvProps', 'Model.Dispatch']),
     ('kernels2lean.py', KERN_THEOREMS, ['Model']),
     ('layout2lean.py', LAY_THEOREMS, ['Model']),
     ('numba2lean.py', NUMBA_THEOREMS, ['Model', 'Proofs.NumbaEq']),
